@@ -147,6 +147,19 @@ func (e *Engine) runReplayData(r *Replayer, data map[string]interface{}) map[str
 }
 
 func init() {
+	// C11: fixed scenarios on the real keepers (no model values needed)
+	registerReplay(&Replayer{
+		Obligation: "x/perpetual/keeper.(Keeper).Open/call:PerpetualHooks.AfterPerpetualPositionOpen#1/pre:*",
+		Template:   "C11_stale_pool_after_open.go.tmpl", PkgDir: "x/accountedpool/keeper", TestName: "TestVerifReplayC11StaleAmmPoolAfterOpen",
+		Marker: "C11 violated on the real code",
+		Data:   func(m map[string]string, goal string) (map[string]interface{}, error) { return map[string]interface{}{}, nil },
+	})
+	registerReplay(&Replayer{
+		Obligation: "x/perpetual/keeper.(Keeper).CheckAndLiquidateUnhealthyPosition/ensures:C11/accounted-pool-refreshed-after-settlement",
+		Template:   "C11_settlement_without_hook.go.tmpl", PkgDir: "x/accountedpool/keeper", TestName: "TestVerifReplayC11SettlementWithoutHook",
+		Marker: "C11 violated on the real code",
+		Data:   func(m map[string]string, goal string) (map[string]interface{}, error) { return map[string]interface{}{}, nil },
+	})
 	// C08: a liquidation that fails after the pool total was written (the reward payout fails);
 	// fixed scenario, no model values needed
 	for _, fn := range []string{"CheckAndLiquidateUnhealthyPosition", "CheckAndCloseAtStopLoss"} {
